@@ -143,7 +143,13 @@ Theorem ff_stale_import_refuted :
      cursor is pulled back, the report is the specification *)
   status_of (stF2 before_ff_check 2000) 1 = Some (WImporting 1) /\
   status_of (stF3 before_ff_check 2000) 1 = Some WReady /\
-  xreport (stF3 before_ff_check 2000) 1 = spec_report pF (key_owner (stF3 before_ff_check 2000)) chainC 1.
+  xreport (stF3 before_ff_check 2000) 1 = spec_report pF (key_owner (stF3 before_ff_check 2000)) chainC 1 /\
+  (* with asyncImport's chain check (the code right before this repair) the same fast-forward leaves a
+     rescan that never finishes: the record of the batch's upper height 4 is the abandoned block's, every
+     batch is refused, the wallet stays "importing" *)
+  synced (x_w (stF2 tipcheck_no_ff_check 2)) = synced (x_w (stF2 before_ff_check 2)) /\
+  snd (import_batch tipcheck_no_ff_check pF 2 chainC (stF2 tipcheck_no_ff_check 2) 1) = IRetry /\
+  status_of (stF3 tipcheck_no_ff_check 2) 1 = Some (WImporting 2).
 Proof. vm_compute. repeat split; reflexivity. Qed.
 
 (* the same crash, the same fast-forward margin, Start as repaired: the stored tip (4, block 4) is not
